@@ -15,7 +15,8 @@ variable {gh : Ghost}
 
 /-- The state invariant while frames of `_handle_key` hold `int i` references on window `i`. -/
 structure KInv (gh : Ghost) (st : St) (int : Nat → Nat) : Prop extends SInvB gh st [] where
-  up : ∀ (i : Nat) (w : Win), LiveW st.tree i w → w.refcount ≤ ((getX st i).appRefs : Int) + (gh.win i : Int) + (int i : Int)
+  up : ∀ (i : Nat) (w : Win), LiveW st.tree i w → w.refcount ≤ ((getX st i).appRefs : Int) + (gh.win i : Int) + (int i : Int) ∧
+    (i = 0 → ((getX st i).appRefs : Int) + (gh.win i : Int) + (int i : Int) ≤ w.refcount)
   lo : ∀ (i : Nat) (w : Win), LiveW st.tree i w → 1 + (int i : Int) ≤ w.refcount
 
 theorem KInv.of_inv {st : St} (inv : SInv gh st) : KInv gh st (fun _ => 0) :=
@@ -99,30 +100,43 @@ theorem KInv.setX_same {st : St} {int : Nat → Nat} (K : KInv gh st int) (i : N
   · rename_i h; rw [ha, h.1]; exact K.up j w hl
   · exact K.up j w hl
 
-/-- The count of one live window and the frames' tally move together. -/
-theorem KInv.set_refcount {st : St} {int : Nat → Nat} (K : KInv gh st int) {win : Nat} {ww : Win} (hw : LiveW st.tree win ww)
+/-- The count of one live window, the application's tally of it and the frames' tally move together. -/
+theorem KInv.set_refcount_x {st : St} {int : Nat → Nat} (K : KInv gh st int) {win : Nat} {ww : Win} (hw : LiveW st.tree win ww)
+    (x : WinX) (hp : x.pen = (getX st win).pen)
     (r : Int) (int' : Nat → Nat) (hoth : ∀ j, j ≠ win → int' j = int j)
-    (hup : r ≤ ((getX st win).appRefs : Int) + (gh.win win : Int) + (int' win : Int)) (hlo : 1 + (int' win : Int) ≤ r) :
-    KInv gh (setW st win { ww with refcount := r }) int' ∧ Pres st (setW st win { ww with refcount := r }) := by
+    (hup : r ≤ (x.appRefs : Int) + (gh.win win : Int) + (int' win : Int) ∧
+      (win = 0 → (x.appRefs : Int) + (gh.win win : Int) + (int' win : Int) ≤ r)) (hlo : 1 + (int' win : Int) ≤ r) :
+    KInv gh (setW (setX st win x) win { ww with refcount := r }) int' ∧ Pres st (setW (setX st win x) win { ww with refcount := r }) := by
   obtain ⟨inv', hrel⟩ := K.tinv.set_refcount hw r
+  have hlt : win < st.wx.size := by rw [K.wx_size]; exact hw.lt
   have hl0 : LiveW (WinTree.set st.tree win { ww with refcount := r }) win { ww with refcount := r } :=
     ⟨set_get_self _ hw.lt, hw.2⟩
-  refine ⟨⟨K.toSInvB.of_tree (t' := WinTree.set st.tree win { ww with refcount := r }) inv' (set_size _ _ _) ?_, ?_, ?_⟩,
+  have KB : SInvB gh (setX st win x) [] := K.toSInvB.of_wx rfl rfl rfl rfl rfl (setX_map_pen x hp)
+  have hget : ∀ j, getX (setW (setX st win x) win { ww with refcount := r }) j = if win = j then x else getX st j := by
+    intro j
+    show getX (setX st win x) j = _
+    rw [getX_setX]
+    simp only [hlt, and_true]
+  refine ⟨⟨KB.of_tree (t' := WinTree.set st.tree win { ww with refcount := r }) inv' (set_size _ _ _) ?_, ?_, ?_⟩,
     ⟨set_size _ _ _, ?_, rfl⟩⟩
   · intro i w hwi
+    have hwi' : st.tree.wins[i]? = some w := hwi
     by_cases hi : win = i
     · subst hi
-      have : w = ww := by rw [hw.1] at hwi; exact (Option.some.inj hwi).symm
+      have : w = ww := by rw [hw.1] at hwi'; exact (Option.some.inj hwi').symm
       subst this
       exact ⟨_, set_get_self _ hw.lt, rfl, fun _ _ => by show 1 ≤ r; omega⟩
-    · exact ⟨w, by rw [set_get_ne _ hi]; exact hwi, rfl, fun _ h => h⟩
+    · exact ⟨w, by rw [set_get_ne _ hi]; exact hwi', rfl, fun _ h => h⟩
   · intro i w' hl'
     have hl'' : LiveW (WinTree.set st.tree win { ww with refcount := r }) i w' := hl'
+    rw [hget]
     by_cases hi : win = i
     · subst hi
       have := LiveW.unique hl'' hl0; subst this
+      simp only [if_true]
       exact hup
     · rw [hoth i (Ne.symm hi)]
+      simp only [hi, if_false]
       exact K.up i w' ⟨by rw [← set_get_ne _ hi]; exact hl''.1, hl''.2⟩
   · intro i w' hl'
     have hl'' : LiveW (WinTree.set st.tree win { ww with refcount := r }) i w' := hl'
@@ -137,6 +151,34 @@ theorem KInv.set_refcount {st : St} {int : Nat → Nat} (K : KInv gh st int) {wi
     by_cases hi : win = i
     · subst hi; exact ⟨_, hl0⟩
     · exact ⟨w, by rw [set_get_ne _ hi]; exact hl.1, hl.2⟩
+
+theorem setX_getX_self (st : St) (i : Nat) : setX st i (getX st i) = st := by
+  have : st.wx.setIfInBounds i (getX st i) = st.wx := by
+    apply Array.ext_getElem?
+    intro j
+    rw [Array.getElem?_setIfInBounds]
+    split
+    · rename_i h
+      subst h
+      split
+      · rename_i hlt
+        unfold getX
+        rw [Array.getElem?_eq_getElem hlt]; rfl
+      · rename_i hlt
+        rw [Array.getElem?_eq_none (by omega)]
+    · rfl
+  unfold setX
+  simp only [this]
+
+/-- The count of one live window and the frames' tally move together. -/
+theorem KInv.set_refcount {st : St} {int : Nat → Nat} (K : KInv gh st int) {win : Nat} {ww : Win} (hw : LiveW st.tree win ww)
+    (r : Int) (int' : Nat → Nat) (hoth : ∀ j, j ≠ win → int' j = int j)
+    (hup : r ≤ ((getX st win).appRefs : Int) + (gh.win win : Int) + (int' win : Int) ∧
+      (win = 0 → ((getX st win).appRefs : Int) + (gh.win win : Int) + (int' win : Int) ≤ r)) (hlo : 1 + (int' win : Int) ≤ r) :
+    KInv gh (setW st win { ww with refcount := r }) int' ∧ Pres st (setW st win { ww with refcount := r }) := by
+  have := K.set_refcount_x hw (getX st win) rfl r int' hoth hup hlo
+  rw [setX_getX_self] at this
+  exact this
 
 /-- A frame takes a reference (`tickit_window_ref`). -/
 theorem KInv.refI {st : St} {int : Nat → Nat} (K : KInv gh st int) {win : Nat} {ww : Win} (hw : LiveW st.tree win ww) :
@@ -184,21 +226,6 @@ theorem KeepingHandlers.setX {st : St} (H : KeepingHandlers st) (i : Nat) (x : W
     rw [he]; exact H i b0 hb0
   · exact H j b hbj
 
-/-- A change of a window's record that keeps its pen and does not lower the application's tally. -/
-theorem KInv.setX_app {st : St} {int : Nat → Nat} (K : KInv gh st int) (i : Nat) (x : WinX) (hp : x.pen = (getX st i).pen)
-    (ha : (getX st i).appRefs ≤ x.appRefs) : KInv gh (setX st i x) int ∧ Pres st (setX st i x) := by
-  refine ⟨⟨K.toSInvB.of_wx rfl rfl rfl rfl rfl (setX_map_pen x hp), ?_, K.lo⟩, ⟨rfl, fun _ w h => ⟨w, h⟩, rfl⟩⟩
-  intro j w hl
-  rw [getX_setX]
-  split
-  · rename_i h
-    have := K.up j w hl
-    rw [← h.1] at this
-    have ha' : ((getX st i).appRefs : Int) ≤ (x.appRefs : Int) := by exact_mod_cast ha
-    rw [← h.1]
-    omega
-  · exact K.up j w hl
-
 theorem tree_update_wx (st : St) (t' : Tree) : ({ st with tree := t' } : St).wx = st.wx := rfl
 
 /-- One call of a handler that frees nothing: skipped, or done with every window alive and the account intact. -/
@@ -212,16 +239,17 @@ theorem simpleOp_keep {cfg : Cfg} (R : Repaired cfg) {st : St} {int : Nat → Na
     · right
       obtain ⟨ww, hw, _⟩ := heldW_spec hh
       simp only [hh, if_true]
-      obtain ⟨K1, P1⟩ := K.setX_app w { getX st w with appRefs := (getX st w).appRefs + 1 } rfl (Nat.le_succ _)
-      have hw1 : LiveW (setX st w { getX st w with appRefs := (getX st w).appRefs + 1 }).tree w ww := hw
-      have hlt : w < st.wx.size := by rw [K.wx_size]; exact hw.lt
       have hu := K.up w ww hw
       have hl := K.lo w ww hw
       unfold refW
       simp only [getW, setX_tree, get_live hw, bind_ok, pure_ok]
-      obtain ⟨K2, P2⟩ := K1.set_refcount hw1 (ww.refcount + 1) int (fun _ _ => rfl)
-        (by rw [getX_setX_self _ hlt]; show ww.refcount + 1 ≤ (((getX st w).appRefs + 1 : Nat) : Int) + _ + _; omega) (by omega)
-      refine ⟨_, rfl, K2, P1.trans P2, ?_⟩
+      obtain ⟨K2, P2⟩ := K.set_refcount_x hw { getX st w with appRefs := (getX st w).appRefs + 1 } rfl (ww.refcount + 1) int (fun _ _ => rfl)
+        ⟨by show ww.refcount + 1 ≤ (((getX st w).appRefs + 1 : Nat) : Int) + _ + _; omega,
+         fun h0 => by
+          have := hu.2 h0
+          show (((getX st w).appRefs + 1 : Nat) : Int) + _ + _ ≤ ww.refcount + 1
+          omega⟩ (by omega)
+      refine ⟨_, rfl, K2, P2, ?_⟩
       exact (H.setX w { getX st w with appRefs := (getX st w).appRefs + 1 } (fun b hb => ⟨b, hb, rfl⟩)).of_wx rfl
     · left; simp only [hh, Bool.false_eq_true, if_false]
   case close w =>
